@@ -35,7 +35,8 @@ Definition guards : list (string * string * string) := [
   ("disk.Informer", "rpcClient", "mu");
   ("numpin.Informer", "rpcClient", "mu");
   ("stateless.Tracker", "shutdown", "shutdownMu");
-  ("crdt.Consensus", "shutdown", "shutdownLock")].
+  ("crdt.Consensus", "shutdown", "shutdownLock");
+  ("crdt.Consensus", "crdt", "shutdownLock")].
 
 Definition guard_of (ty f : string) : option string :=
   match find (fun g => String.eqb (fst (fst g)) ty && String.eqb (snd (fst g)) f) guards with
@@ -161,6 +162,56 @@ Definition wait_cycles (nesting : list edge) (waits : list wait_site) (covers : 
   else match cycles es with [] => bad_edges es | cs => map show_cycle (firstn 16 cs) end.
 Definition show_wait (w : wait_site) : string :=
   let '(fn, held, g, pos) := w in pos ++ " " ++ fn ++ " waits for " ++ g ++ " holding {" ++ String.concat "," held ++ "}".
+
+(* ---- awaited goroutines are always started ----
+   A plain receive from a channel field ends only when somebody closes the channel (or sends). It is accepted when some
+   closer is (a) sure to reach its close whenever it runs (deferred first thing / nothing returns before it) and (b) sure
+   to have been started: by a `go` statement that sits under no condition the wait does not sit under as well, in a
+   constructor-like function (no receiver: an early return there hands out no object), or in a code unit that has no
+   return statement before the `go` statement and is itself sure to have been started. Syntactic, conservative. *)
+Definition chan_wait := (string * string * list string * list string * string)%type.      (* function, group, held, conditions, position *)
+Definition closer := (string * string * bool * string)%type.                            (* group, code unit, close is sure, position *)
+Definition launch := (string * string * bool * list string * list string * string)%type. (* started, by, constructor, conditions, returns before, position *)
+Definition subsetb (xs ys : list string) : bool := forallb (fun x => existsb (String.eqb x) ys) xs.
+Fixpoint startedb (fuel : nat) (ls : list launch) (u : string) (conds : list string) : bool :=
+  match fuel with
+  | O => false
+  | S f => existsb (fun l : launch => let '(lu, by_, ctor, cs, exits, _) := l in
+             String.eqb lu u && subsetb cs conds &&
+             (ctor || (match exits with [] => true | _ => false end && startedb f ls by_ conds))) ls
+  end.
+Definition chan_wait_okb (ls : list launch) (cl : list closer) (w : chan_wait) : bool :=
+  let '(_, g, _, conds, _) := w in
+  existsb (fun c : closer => let '(cg, u, sure, _) := c in String.eqb cg g && sure && startedb 6 ls u conds) cl.
+Definition started_okb (ls : list launch) (cl : list closer) (ws : list chan_wait) : bool := forallb (chan_wait_okb ls cl) ws.
+(* why a code unit is not sure to have been started (first launch site found) *)
+Fixpoint why_not_started (fuel : nat) (ls : list launch) (u : string) (conds : list string) : string :=
+  match fuel with
+  | O => u ++ ": launch chain too long"
+  | S f =>
+    match filter (fun l : launch => let '(lu, _, _, _, _, _) := l in String.eqb lu u) ls with
+    | [] => u ++ " is not started by any go statement"
+    | (_, by_, ctor, cs, exits, pos) :: _ =>
+      if negb (subsetb cs conds) then u ++ " is started by " ++ by_ ++ " at " ++ pos ++ " only under {" ++ String.concat "; " cs ++ "}"
+      else if ctor then u ++ " is started"
+      else match exits with
+           | [] => why_not_started f ls by_ conds
+           | _ => u ++ " is started by " ++ by_ ++ " at " ++ pos ++ " after " ++ String.concat ", " exits ++
+                  " (return statements of " ++ by_ ++ " that come first): not on every path"
+           end
+    end
+  end.
+Definition show_unstarted (ls : list launch) (cl : list closer) (w : chan_wait) : string :=
+  let '(fn, g, held, conds, pos) := w in
+  pos ++ " " ++ fn ++ " waits for " ++ g ++ " holding {" ++ String.concat "," held ++ "}: " ++
+  match filter (fun c : closer => let '(cg, _, _, _) := c in String.eqb cg g) cl with
+  | [] => "nobody closes it"
+  | cs => String.concat " | " (map (fun c : closer => let '(_, u, sure, cpos) := c in
+            if sure then "its closer " ++ why_not_started 6 ls u conds
+            else "its closer " ++ u ++ " does not reach the close at " ++ cpos ++ " on every path") cs)
+  end.
+Definition unstarted (ls : list launch) (cl : list closer) (ws : list chan_wait) : list string :=
+  map (show_unstarted ls cl) (filter (fun w => negb (chan_wait_okb ls cl w)) ws).
 
 (* the table still contains the waits the property is about: (group, must the table list code units it covers?) *)
 Definition expected_waits : list (string * bool) :=
